@@ -553,6 +553,11 @@ static size_t ZSTD_seekable_decompress_internal(ZSTD_seekable* zs, void* dst, si
                             zs->seekTable.entries[targetFrame].checksum) {
                     return ERROR(corruption_detected);
                 }
+                /* the frame must regenerate exactly what the seek table announces,
+                 * otherwise the loop below restarts the same frame forever */
+                if (zs->decompressedOffset != zs->seekTable.entries[targetFrame + 1].dOffset) {
+                    return ERROR(corruption_detected);
+                }
 
                 if (zs->decompressedOffset < offset + len) {
                     /* go back to the start and force a reset of the stream */
